@@ -21,6 +21,7 @@ func init() {
 	register(&Rule{ID: "C01.d", Doc: "every newly created chunk is enqueued exactly once on every non-error path; every dequeued chunk is finalised", Floor: 14, Run: c01d})
 	register(&Rule{ID: "C01.e", Doc: "return-point threading of if / while / do-while / break / continue / split (value-origin templates)", Floor: 30, Run: c01e})
 	register(&Rule{ID: "C01.f", Doc: "branch protocol: goto iff dest is neither next nor 'leave', terminator iff 'leave', fall through iff dest is next", Floor: 14, Run: c01f})
+	register(&Rule{ID: "C01.h", Doc: "the parsers of if / while / do-while keep every condition, body and branch they parse", Floor: 5, Run: c01h})
 	register(&Rule{ID: "C01.g", Doc: "end/return early exit only as last statement; terminator kind follows the command name", Floor: 3, Run: c01g})
 }
 
@@ -336,14 +337,19 @@ func c01c(c *Ctx) {
 				// finalisation copy: must be the id of the chunk whose statements are copied
 				base := strings.TrimSuffix(ci.id, ".id")
 				c.Check(strings.HasPrefix(ci.stmts, base+".statements"), key, pos, "finalisation copy keeps the id of the chunk it is cut from ("+pretty(ci.id)+")", "chunk copies id "+pretty(ci.id)+" but its statements come from "+pretty(ci.stmts))
-			case ci.id == "$1" && fn.Name() == "createPostLogicChunk":
+			case ci.ctor == nil && paramIndexOfTerm(ci.id) >= 0:
 				// parameter: callers must pass a freshly incremented counter value
 				ok := true
 				why := ""
 				n := 0
+				pk := paramIndexOfTerm(ci.id)
 				for _, call := range c.W.callsTo(fn) {
 					n++
-					arg := call.Common().Args[1]
+					if pk >= len(call.Common().Args) {
+						ok = false
+						continue
+					}
+					arg := call.Common().Args[pk]
 					ld, isLoad := arg.(*ssa.UnOp)
 					caller := call.Parent()
 					ct := c.T(caller)
@@ -995,4 +1001,117 @@ func c01g(c *Ctx) {
 		}
 		c.Check(okEnd && okRet, "getTerminatorCommand/table", c.W.FuncPos(gt), "useEndTerminator -> end, otherwise return", "getTerminatorCommand does not map useEndTerminator to end and its absence to return")
 	}
+}
+
+// c01h: what the control-flow parsers parse ends up in the node they return. Every AST piece
+// returned by a parse call (a condition with its body, a block) is stored into a node, appended
+// to a list, handed to another function or returned — on every successful way to the next
+// iteration or to the return. A branch that is parsed and then left out (because it looks empty,
+// say) takes its condition with it: later branches would no longer be guarded by it.
+func c01h(c *Ctx) {
+	for _, name := range []string{"parser.Parser.parseIfStatement", "parser.Parser.parseWhileStatement", "parser.Parser.parseDoWhileStatement", "parser.Parser.parseConditionExpression"} {
+		fn := c.Fn(name)
+		if fn == nil {
+			continue
+		}
+		n := 0
+		for _, ci := range callsIn(fn) {
+			g := callee(ci)
+			call, isCall := ci.(*ssa.Call)
+			if g == nil || !isCall || !c.W.InRepo(g) || c.W.PkgShort(g) != "parser" {
+				continue
+			}
+			res := g.Signature.Results()
+			if res.Len() == 0 || !isASTType(res.At(0).Type()) {
+				continue
+			}
+			var v ssa.Value = call
+			if res.Len() > 1 {
+				v = nil
+				for _, r := range *call.Referrers() {
+					if ex, ok := r.(*ssa.Extract); ok && ex.Index == 0 {
+						v = ex
+					}
+				}
+			}
+			n++
+			key := fmt.Sprintf("%s/kept[%s#%d]", fn.Name(), g.Name(), n)
+			pos := c.W.Pos(call.Pos())
+			if v == nil {
+				c.Bad(key, pos, "the piece parsed by "+g.Name()+" is discarded")
+				continue
+			}
+			uses := map[ssa.Instruction]bool{}
+			var mark func(x ssa.Value, depth int)
+			mark = func(x ssa.Value, depth int) {
+				if x.Referrers() == nil || depth > 3 {
+					return
+				}
+				for _, r := range *x.Referrers() {
+					switch y := r.(type) {
+					case *ssa.Store:
+						if y.Val == x {
+							uses[y] = true
+						}
+					case *ssa.Return:
+						uses[y] = true
+					case *ssa.MakeInterface, *ssa.ChangeType, *ssa.ChangeInterface, *ssa.Phi:
+						mark(y.(ssa.Value), depth+1)
+					case ssa.CallInstruction:
+						// handing the piece to a function that only looks at it is no use
+						if h := callee(y); h != nil && c.W.InRepo(h) && c.T(fn).purity(h) >= purReadOnly {
+							continue
+						}
+						for _, a := range y.Common().Args {
+							if a == x {
+								uses[r] = true
+							}
+						}
+					}
+				}
+			}
+			mark(v, 0)
+			// the varargs slice of an append: the element is stored into the backing array first
+			for st := range uses {
+				if s, ok := st.(*ssa.Store); ok {
+					if ia, ok := s.Addr.(*ssa.IndexAddr); ok {
+						if a, ok := ia.X.(*ssa.Alloc); ok && a.Referrers() != nil {
+							delete(uses, st)
+							for _, r := range *a.Referrers() {
+								if sl, ok := r.(*ssa.Slice); ok && sl.Referrers() != nil {
+									for _, r2 := range *sl.Referrers() {
+										if ap, ok := r2.(*ssa.Call); ok && calleeName(ap) == "builtin:append" {
+											uses[ap] = true
+										}
+									}
+								}
+							}
+						}
+					}
+				}
+			}
+			isUse := func(in ssa.Instruction) bool { return uses[in] }
+			head := loopHeaders(fn)[call.Block()]
+			_, skip := existsPath(pathQuery{from: after(call), avoid: isUse, edgeOK: notErrorEdge, target: func(in ssa.Instruction) bool {
+				if r, ok := in.(*ssa.Return); ok {
+					return isSuccessReturn(r)
+				}
+				return head != nil && in.Block() == head && in == head.Instrs[0]
+			}})
+			c.Check(!skip, key, pos, "the parsed piece is stored, appended, handed on or returned on every successful path", "what "+g.Name()+" parsed can be dropped: a successful return or the next iteration is reachable without the piece being stored into the statement (a dropped branch takes its condition with it)")
+		}
+	}
+}
+
+// isASTType: a (pointer to / slice of) type of package ast.
+func isASTType(t types.Type) bool {
+	switch x := t.(type) {
+	case *types.Pointer:
+		return isASTType(x.Elem())
+	case *types.Slice:
+		return isASTType(x.Elem())
+	case *types.Named:
+		return x.Obj().Pkg() != nil && strings.HasSuffix(x.Obj().Pkg().Path(), "/ast")
+	}
+	return false
 }
